@@ -38,6 +38,15 @@ def gen_case(rng, cfg, idx):
         for v in views:
             if rng.random() < 0.2:
                 post.append({"k": "clear", "tgt": v})
+        if rng.random() < 0.4:
+            # a second, unrelated backward: a fresh LEAF is back-propagated with another tensor's gradient array as the seed
+            cands = [n for n in b.tensors() if b.meta[n]["nonconst"] and np.size(b.val(n))]
+            if cands:
+                z = rng.choice(cands)
+                shp = np.shape(b.val(z))
+                post.append({"k": "leaf", "out": "yleaf", "kind": "tensor", "dtype": "float64", "shape": list(shp),
+                             "data": B.rand_values(rng, shp).ravel().tolist(), "constant": None, "layout": "C"})
+                post.append({"k": "backward", "tgt": "yleaf", "seed": ["g", z], "optional": True})
         order = [n for n in b.tensors()]
         rng.shuffle(order)
         return {"prog": b.prog + post, "L": L, "read_order": order, "cseed": rng.randrange(1 << 30)}
@@ -49,11 +58,16 @@ def run_case(case):
     REG.reset()
     it = Interp("mg")
     try:
-        it.run(prog, catch=False)
+        for i, st in enumerate(prog):
+            if st.get("optional"):
+                z = st["seed"][1]
+                if not (mgrun.is_tensor(it.env.get(z)) and it.env[z].grad is not None):
+                    continue   # the tensor whose gradient was to seed the second backward has none
+            it.exec(i, st)
     except Exception as e:
         return {"viol": [{"monitor": "mg-raised", "mech": f"mg-raises:{type(e).__name__}", "msg": f"{type(e).__name__}: {e}"}]}
     arrival = list(REG.arrival)
-    sh = Shadow(prog).run_all()
+    sh = Shadow([st for st in prog if not st.get("optional")]).run_all()
     if sh.raised:
         return {"viol": [{"monitor": "harness", "mech": "shadow-raised", "msg": repr(sh.raised)}]}
     env = it.env
